@@ -186,7 +186,7 @@ def run_exportfile(job):
             ctx.assume(z3.Int(k) == v)
 
     def body(ctx, out):
-        cap, nb, order = int(SInt(st['cap'], 2, 7)), int(SInt(st['nb'], 1, 4)), int(SInt(st['order'], 1, 2))
+        cap, nb, order = int(SInt(st['cap'], 2, 7)), int(SInt(st['nb'], 1, NB_MAX[job.get('tier', 'quick')])), int(SInt(st['order'], 1, 2))
         p1, p2 = int(SInt(st['p1'], -1, 2)), int(SInt(st['p2'], -1, 2))
         w = {'cond': 'export-file', 'cap': cap, 'nb': nb, 'order': order, 'preload': [p1, p2] if p1 >= 0 else None}
         try:
